@@ -3,22 +3,30 @@ import VivModel.Model.Clock
 /-! Line-protocol driver for the per-simulant clock model (C10).
 
 ```
-cfg <start> <stop> <minStep> <std>      DateTimeClock.setup (std 0 = not configured)        → ok
+cfg <start> <stop> <minStep> <std> [indiv|global|simple]
+                                        DateTimeClock.setup with (indiv, default) / without (global) step-size
+                                        modifiers; SimpleClock.setup without modifiers (simple); std 0 = not configured → ok
 init <n> <mods>                         SimulationContext.initialize_simulants              → st …
+override <s>                            InteractiveContext.step(step_size=s): before the engine step → ok
 event                                   index of a main-loop event emitted now              → ev <now> <step> <time> <ids>
 birth <k>                               simulant creator called by a listener               → ok <new ids>
 snooze <ids>                            move_simulants_to_end(ids)                          → ok <pending ids>
-step <mods>                             SimulationClock.step_forward(population.index)      → st <now> <step> <pending> <id:next:step;…>
+untrack <ids> | retrack <ids>           a listener writes the `tracked` column (the clocks do not look at it) → ok
+step <mods>                             SimulationClock.step_forward(population.index), then the restore of an
+                                        overridden step (only without individual clocks / with an empty population, F33) → st <now> <step> <pending> <id:next:step;…>
 ```
 `<mods>`: `-` or one entry per existing simulant (label order) separated by `;`, each entry the outputs
-of the registered modifiers for that simulant separated by `,`, `_` = NaN / not covered.
-Error of the real code: `err population` (a pending move-to-end label is not in the state table:
+of the registered modifiers for that simulant separated by `,`, `_` = NaN / not covered (ignored without modifiers).
+Errors of the real code: `err value` (SimpleClock and an explicit step size of 0: ValueError), `err population` (a pending move-to-end label is not in the state table:
 KeyError in `step_forward`). A global step of zero is not an error for a DateTimeClock (`Timedelta(0) == 0`
 is False, so the `step_size` property does not raise). -/
 open Viv Viv.Proto Viv.Clock
 
 structure St where
-  clk : Option Clock := none
+  clk   : Option Clock := none
+  indiv : Bool := true          -- at least one step-size modifier is registered
+  simple : Bool := false        -- SimpleClock: integer step sizes, `step_size == 0` raises ValueError
+  saved : Option Int := none    -- `old_step_size` of an `InteractiveContext.step(step_size)` in progress
 
 def optNat? (s : String) : Option (Option Nat) :=
   if s = "_" then some none else s.toNat?.map some
@@ -35,25 +43,47 @@ def showSt (c : Clock) : String :=
   s!"st {c.now} {c.step} {showNats c.snooze} {showSims c.sims}"
 
 /-- `step_forward` guarded the way the real code fails -/
-def guardedStep (c : Clock) (t : List (List (Option Nat))) : Except String Clock :=
-  if t.length ≠ c.sims.length then .error "bad-op"
+def guardedStep (indiv : Bool) (c : Clock) (t : List (List (Option Nat))) : Except String Clock :=
+  if !indiv then .ok (stepForwardGlobal c)
+  else if t.length ≠ c.sims.length then .error "bad-op"
   else if !c.sims.isEmpty && c.snooze.any (fun i => !knows c i) then .error "err population"
   else .ok (stepForward c (modsOf t))
 
+def finish (s : St) (c' : Clock) : St × String :=
+  match s.saved with
+  | none => ({ s with clk := some c' }, showSt c')
+  | some old =>
+    -- F33: with individual clocks and a non-empty population the recomputed step is kept
+    let c'' := if s.indiv then (if c'.sims.isEmpty then restoreStep c' old else c')
+               else refreshGlobal (restoreStep c' old)
+    ({ s with clk := some c'', saved := none }, showSt c'')
+
 def step (s : St) : List String → St × String
-  | ["cfg", a, b, m, d] =>
+  | "cfg" :: a :: b :: m :: d :: rest =>
     match a.toInt?, b.toInt?, m.toInt?, d.toInt? with
     | some a, some b, some m, some d =>
-      if m ≤ 0 ∨ d < 0 then (s, "bad-op") else ({ clk := some (configure a b m d) }, "ok")
+      if m ≤ 0 ∨ d < 0 then (s, "bad-op") else
+      match rest with
+      | [] | ["indiv"] => ({ clk := some (configure a b m d) }, "ok")
+      | ["global"] => ({ clk := some (configure a b m d), indiv := false }, "ok")
+      | ["simple"] => ({ clk := some (configureSimple a b m d), indiv := false, simple := true }, "ok")
+      | _ => (s, "bad-op")
     | _, _, _, _ => (s, "bad-op")
   | ["init", n, mods] =>
     match s.clk, n.toNat?, modTable? mods with
     | some c, some n, some t =>
       let c1 := create (stepBackward c) n
-      match guardedStep c1 t with
-      | .ok c' => ({ clk := some c' }, showSt c')
+      match guardedStep s.indiv c1 t with
+      | .ok c' => ({ s with clk := some c' }, showSt c')
       | .error e => (s, e)
     | _, _, _ => (s, "bad-op")
+  | ["override", x] =>
+    match s.clk, x.toInt? with
+    | some c, some x =>
+      if s.simple && x == 0 then (s, "err value") else
+      let c' := if s.indiv then overrideStep c x else refreshGlobal (overrideStep c x)
+      ({ s with clk := some c', saved := some c.step }, "ok")
+    | _, _ => (s, "bad-op")
   | ["event"] =>
     match s.clk with
     | some c => (s, s!"ev {c.now} {c.step} {eventTime c} {showNats (active c)}")
@@ -62,17 +92,23 @@ def step (s : St) : List String → St × String
     match s.clk, k.toNat? with
     | some c, some k =>
       let c' := create c k
-      ({ clk := some c' }, s!"ok {showNats ((c'.sims.drop c.sims.length).map (·.id))}")
+      ({ s with clk := some c' }, s!"ok {showNats ((c'.sims.drop c.sims.length).map (·.id))}")
     | _, _ => (s, "bad-op")
   | ["snooze", ids] =>
     match s.clk, natList ids with
-    | some c, some ids => let c' := moveToEnd c ids; ({ clk := some c' }, s!"ok {showNats c'.snooze}")
+    | some c, some ids =>
+      let c' := if s.indiv then moveToEnd c ids else c
+      ({ s with clk := some c' }, s!"ok {showNats c'.snooze}")
+    | _, _ => (s, "bad-op")
+  | ["untrack", ids] | ["retrack", ids] =>
+    match s.clk, natList ids with
+    | some c, some ids => if ids.all (knows c) then (s, "ok") else (s, "err population")
     | _, _ => (s, "bad-op")
   | ["step", mods] =>
     match s.clk, modTable? mods with
     | some c, some t =>
-      match guardedStep c t with
-      | .ok c' => ({ clk := some c' }, showSt c')
+      match guardedStep s.indiv c t with
+      | .ok c' => finish s c'
       | .error e => (s, e)
     | _, _ => (s, "bad-op")
   | _ => (s, "bad-op")
